@@ -290,6 +290,12 @@ func init() {
 				}
 				plans[g].qs = qs
 			}
+			hammerPts := make([]orb.Point, 600)
+			hammerAlone := make([]int, len(hammerPts))
+			for hi := range hammerPts {
+				hammerPts[hi] = orb.Point{float64(c.rng.Intn(1025)), float64(c.rng.Intn(1025))}
+				hammerAlone[hi] = qtID(q.Find(hammerPts[hi]))
+			}
 			sites := make([]string, ng)
 			var wg sync.WaitGroup
 			start := make(chan struct{})
@@ -322,6 +328,18 @@ func init() {
 								for si, sp := range c19SidePts {
 									if fmt.Sprint(idsOf(c19Side.KNearest(nil, sp, 300))) != c19SideAlone[si] {
 										e.Inb = append(e.Inb, []int{0, 0, 0, 0, 1, 0, -3}) // no model accepts this row
+									}
+								}
+							}
+							// ... and the plain nearest-point question, thousands of times over a few hundred places that all
+							// goroutines share (answers taken before anybody started): nothing a reader keeps for itself may be
+							// mistaken for another reader's
+							if rep == 2 {
+								for it := 0; it < 4000; it++ {
+									hi := (g*131 + it*7) % len(hammerPts)
+									if qtID(q.Find(hammerPts[hi])) != hammerAlone[hi] {
+										e.Inb = append(e.Inb, []int{0, 0, 0, 0, 1, 0, -3}) // no model accepts this row
+										break
 									}
 								}
 							}
